@@ -365,6 +365,9 @@ pub fn run_phases(cfg: &Cfg, mut phases: Vec<Box<dyn Phase>>, selfcheck: Result<
                         phase_ref.run(idx, &mut rng, out_ref);
                     }))
                 };
+                for (rule, input, expected, observed) in crate::api::take_findings() {
+                    out.violation(&rule, input, expected, observed);
+                }
                 if let Err(_) = r {
                     let info = crate::observe::last_panic();
                     let desc = out.pending_desc.clone().unwrap_or_default();
